@@ -41,6 +41,7 @@ def extract(ctx):
         return
     lines = [l for l in p.stdout.splitlines() if l[:2] in ("0 ", "1 ", "2 ")]
     ctx.coverage["fact_sites"] = len(lines)
+    ctx.coverage["fact_sites_established"] = len([l for l in lines if l.startswith("0 ")])
     ctx.coverage["fact_sites_refuted"] = [l[2:] for l in lines if l.startswith("1 ")]
     ctx.coverage["fact_sites_unknown_shape"] = [l[2:] for l in lines if l.startswith("2 ")]
     if ctx.coverage["fact_sites_unknown_shape"]:
